@@ -37,6 +37,10 @@ Why == LET r == Expected IN
 TNext == /\ l <= NT /\ l' = l + 1 /\ lastOp' = lastOp
          /\ IF Ev.op = "reset" THEN elems' = <<>> /\ cap' = Ev.cap /\ skipping' = FALSE /\ nbad' = nbad
             ELSE IF skipping THEN UNCHANGED <<elems, cap, skipping, nbad>>
+            ELSE IF Ev.op = "ctor" THEN
+                 \* constructor under allocation failure: a failed constructor leaves nothing allocated (C15)
+                 IF Ev.live = 0 \/ "leak" \notin Owned THEN UNCHANGED <<elems, cap, skipping, nbad>>
+                 ELSE PrintT("REJECT " \o ToJson([l |-> l, why |-> {"leak"}, ev |-> Ev, exp |-> "constructor leaked"])) /\ skipping' = TRUE /\ UNCHANGED <<elems, cap, nbad>>
             ELSE IF Ev.op \in {"crash", "timeout"} THEN
                  /\ PrintT("REJECT " \o ToJson([l |-> l, why |-> {Ev.op, "result"}, ev |-> Ev, exp |-> "no action admits this event"]))
                  /\ skipping' = TRUE /\ nbad' = nbad + 1 /\ UNCHANGED <<elems, cap>>
